@@ -244,10 +244,6 @@ func (p *Processor) ChargingDataUpdate(
 	// Online charging: Rate, Account, Reservation
 	responseBody, partialRecord := p.BuildConvergedChargingDataUpdateResopone(chargingData)
 
-	if len(ue.Records) > 1 {
-		cdr = ue.Records[len(ue.Records)-1]
-	}
-
 	cdrBytes, errCdrBer := asn.BerMarshalWithParams(&cdr, "explicit,choice")
 	if errCdrBer != nil {
 		logger.ChargingdataPostLog.Error(errCdrBer)
@@ -287,6 +283,8 @@ func (p *Processor) ChargingDataUpdate(
 		newRecord.ChargingFunctionRecord.ListOfMultipleUnitUsage = []cdrType.MultipleUnitUsage{}
 		cdr = newRecord
 		ue.Records = append(ue.Records, cdr)
+		// the session continues in the new record
+		ue.Cdr[chargingSessionId] = cdr
 	}
 
 	err := p.UpdateCDR(cdr, chargingData)
